@@ -267,7 +267,7 @@ func pathErr(op, p string, e error) error { return &fs.PathError{Op: op, Path: p
 
 func faultErr(ft *Fault) error {
 	switch ft.Kind {
-	case "enoent":
+	case "enoent", "dangling":
 		return syscall.ENOENT
 	case "eacces":
 		return syscall.EACCES
@@ -475,6 +475,11 @@ func statImpl(op, name string, follow bool) (fs.FileInfo, error) {
 	f := fsOf()
 	p := f.abs(name)
 	ev, ft := f.event(op, p)
+	if ft != nil && ft.Kind == "dangling" && !follow {
+		// the path is a symbolic link whose target is gone: lstat sees the link itself
+		ev.Res = "ok:link"
+		return fileInfo{name: path.Base(p), link: true}, nil
+	}
 	if ft != nil && !isContentFault(ft.Kind) {
 		ev.Res = ft.Kind
 		if ft.Kind == "eisdir" {
